@@ -97,6 +97,12 @@ pub struct AuthCfg {
     pub hmac: u8,
     /// evaluation at creation
     pub hmac_mc: bool,
+    /// the order in which the configuration is applied: 0 setters, then the hmac-secret builder;
+    /// 1 builder first, then setters (the order of the repository's own examples); 2 setters, hmac
+    /// builder, then the transports builder with the default transports; 3 the same with an empty
+    /// transports list.  Whatever the order, the authenticator must end up configured as asked.
+    #[serde(default)]
+    pub order: u8,
 }
 
 pub fn mk_auth<S>(store: S, uv: ScriptedUv, cfg: &AuthCfg) -> Authenticator<S, ScriptedUv>
@@ -105,18 +111,33 @@ where
 {
     use passkey_authenticator::extensions::HmacSecretConfig;
     let mut auth = Authenticator::new(passkey_types::ctap2::Aaguid::from(*b"harness-aaguid-0"), store, uv);
-    auth.set_make_credentials_with_signature_counter(cfg.counter);
-    if let Some(n) = cfg.id_len {
-        auth.set_make_credential_id_length(passkey_authenticator::CredentialIdLength::from(n));
-    }
     let h = match cfg.hmac {
         0 => None,
         1 => Some(HmacSecretConfig::new_with_uv_only()),
         _ => Some(HmacSecretConfig::new_without_uv()),
+    }
+    .map(|h| if cfg.hmac_mc { h.enable_on_make_credential() } else { h });
+    let setters = |auth: &mut Authenticator<S, ScriptedUv>| {
+        auth.set_make_credentials_with_signature_counter(cfg.counter);
+        if let Some(n) = cfg.id_len {
+            auth.set_make_credential_id_length(passkey_authenticator::CredentialIdLength::from(n));
+        }
     };
-    match h {
-        Some(h) => auth.hmac_secret(if cfg.hmac_mc { h.enable_on_make_credential() } else { h }),
-        None => auth,
+    if cfg.order == 1 {
+        if let Some(h) = h {
+            auth = auth.hmac_secret(h);
+        }
+        setters(&mut auth);
+        return auth;
+    }
+    setters(&mut auth);
+    if let Some(h) = h {
+        auth = auth.hmac_secret(h);
+    }
+    match cfg.order {
+        2 => auth.transports(vec![passkey_types::webauthn::AuthenticatorTransport::Internal, passkey_types::webauthn::AuthenticatorTransport::Hybrid]),
+        3 => auth.transports(vec![]),
+        _ => auth,
     }
 }
 
